@@ -83,6 +83,8 @@ Definition dOp2 : dec op2 := fun l =>
   | 6 :: r => (let* st := dStatus in let* ok := dBool in let* n := dZ in let* f := dBool in
                ret (Stale st ok n f)) r
   | 9 :: r => (let* n := dZ in let* f := dBool in ret (LostWrite n f)) r
+  | 10 :: r => (let* st := dOpt dStatus in let* li := dList dJob in let* ok := dBool in let* n := dZ in
+                let* f := dBool in ret (Lagged st li ok n f)) r
   | _ => (let* o := dOp in ret (Fresh o)) l
   end.
 
@@ -140,7 +142,8 @@ Definition dObs : dec robs :=
   let* sp := dSpec in let* l := dOpt dZ in let* a := dList dRef in let* js := dList dJob in
   let* now := dZ in let* cr := dList (dPair dZ dZ) in let* dl := dList (dPair dZ dBool) in let* aa := dList dRef in
   let* cf := dList (dPair dZ dZ) in let* len := dBool in let* er := dZ in let* la := dOpt dZ in let* up := dBool in
-  ret (mkObs sp l a js now cr dl aa cf len er la up).
+  let* lg := dBool in let* kn := dList dZ in
+  ret (mkObs sp l a js now cr dl aa cf len er la up lg kn).
 
 Definition entry (sel : Z) (toks : list Z) : list Z :=
   match sel with
@@ -208,5 +211,9 @@ Definition entry (sel : Z) (toks : list Z) : list Z :=
            | Some cr => eBool (law_history cr) | None => bad_input end
   | 121 => match run_dec (dPair dTable dObs) toks with
            | Some (tbl, o) => eBool (law_reconcile tbl o) | None => bad_input end
+  | 123 => match run_dec (dPair dTable dObs) toks with
+           | Some (_, o) => eBool (law_deletes o) | None => bad_input end
+  | 122 => match run_dec (dPair dTable dObs) toks with
+           | Some (_, o) => eBool (law_forbid_live o) | None => bad_input end
   | _ => bad_input
   end.
